@@ -78,6 +78,17 @@ def gen_scenario(rng, *, family='well', cyclic=False, init_env=False,
         'linemode': rng.random() < 0.2,
         'init_env': {},
     }
+    # how the graphs are handed to the scheduler: node by node, from
+    # dependency dictionaries, from the tasks' own dependency sets (the way
+    # the run command builds them), or with a sub-graph embedded as one node
+    scn['graph_api'] = rng.choice(('add', 'add', 'dict', 'tasks', 'nested'))
+    if cyclic and scn['graph_api'] in ('tasks', 'nested'):
+        scn['graph_api'] = 'add'
+    if scn['graph_api'] == 'nested':
+        if ntask >= 3:
+            make_group(rng, scn)
+        else:
+            scn['graph_api'] = 'add'
     if cyclic and ntask >= 1:
         # add one or two back edges (self loops included)
         for _ in range(rng.choice((1, 1, 2))):
@@ -98,6 +109,42 @@ def gen_scenario(rng, *, family='well', cyclic=False, init_env=False,
                     ent['end_clock'] = start + rng.randrange(1, 50)
                 scn['init_env'][str(i)] = ent
     return scn
+
+
+def make_group(rng, scn):
+    '''Embed a contiguous range of tasks as one sub-graph node of the hard
+    graph.  The members keep their internal hard edges and lose the other
+    ones; the node depends on earlier tasks and later tasks depend on it.
+    scn['tasks'][i]['hard'] is rewritten to the flat relation that the
+    documented grafting produces: members without hard dependencies inside
+    the group depend on what the node depends on, and what depends on the node
+    depends on the members nobody in the group depends on.'''
+    tasks = scn['tasks']
+    ntask = len(tasks)
+    size = rng.choice((2, 2, 3)) if ntask > 3 else 2
+    lo = rng.randrange(0, ntask - size + 1)
+    members = list(range(lo, lo + size))
+    mset = set(members)
+    for i, tsk in enumerate(tasks):
+        if i in mset:
+            tsk['hard'] = [j for j in tsk['hard'] if j in mset]
+        else:
+            tsk['hard'] = [j for j in tsk['hard'] if j not in mset]
+    gdeps = [j for j in range(lo) if rng.random() < 0.6]
+    gdependees = [k for k in range(lo + size, ntask) if rng.random() < 0.6]
+    inner = {i: list(tasks[i]['hard']) for i in members}
+    terminals = [i for i in members if not inner[i]]
+    initials = [i for i in members
+                if not any(i in inner[m] for m in members)]
+    for i in terminals:
+        tasks[i]['hard'] = sorted(set(tasks[i]['hard']) | set(gdeps))
+    for k in gdependees:
+        tasks[k]['hard'] = sorted(set(tasks[k]['hard']) | set(initials))
+    for tsk in tasks:
+        tsk['soft'] = [j for j in tsk['soft'] if j not in tsk['hard']]
+    scn['group'] = {'members': members, 'inner': {str(i): inner[i]
+                                                  for i in members},
+                    'deps': gdeps, 'dependees': gdependees}
 
 
 def is_cyclic(scn):
@@ -329,13 +376,57 @@ def build_tasks(scn, mods, recorder, run_tag='r', run_no=0):
 
 def build_graphs(scn, mods, objs):
     dg = mods['depgraph'].DepGraph
+    api = scn.get('graph_api', 'add')
+    specs = scn['tasks']
+    if api == 'dict':
+        hard = dg.from_dependency_dictionary(
+            {objs[i]: [objs[j] for j in spec['hard']]
+             for i, spec in enumerate(specs)})
+        soft = dg.from_dependency_dictionary(
+            {objs[i]: [objs[j] for j in spec['soft']]
+             for i, spec in enumerate(specs)})
+        return hard, soft
+    if api == 'tasks':
+        # like valjean.cambronne.common.build_graphs on the tasks that
+        # nobody depends on
+        needed = set()
+        for spec in specs:
+            needed.update(spec['hard'] + spec['soft'])
+        tops = [objs[i] for i in range(len(specs)) if i not in needed]
+        tasks = mods['task'].close_dependency_graph(tops)
+        hard, soft = dg(), dg()
+        for tsk in tasks:
+            hard.add_node(tsk)
+            soft.add_node(tsk)
+            for dep in tsk.depends_on:
+                hard.add_dependency(tsk, on=dep)
+            for dep in tsk.soft_depends_on:
+                soft.add_dependency(tsk, on=dep)
+        return hard, soft
     hard, soft = dg(), dg()
-    for i, spec in enumerate(scn['tasks']):
-        hard.add_node(objs[i])
+    group = scn.get('group') if api == 'nested' else None
+    members = set(group['members']) if group else set()
+    for i, spec in enumerate(specs):
+        if i not in members:
+            hard.add_node(objs[i])
         soft.add_node(objs[i])
-    for i, spec in enumerate(scn['tasks']):
-        for j in spec['hard']:
-            hard.add_dependency(objs[i], on=objs[j])
+    if group:
+        sub = dg()
+        for i in group['members']:
+            sub.add_node(objs[i])
+        for i in group['members']:
+            for j in group['inner'][str(i)]:
+                sub.add_dependency(objs[i], on=objs[j])
+        hard.add_node(sub)
+        for j in group['deps']:
+            hard.add_dependency(sub, on=objs[j])
+        for k in group['dependees']:
+            hard.add_dependency(objs[k], on=sub)
+    for i, spec in enumerate(specs):
+        if i not in members:
+            for j in spec['hard']:
+                if j not in members:
+                    hard.add_dependency(objs[i], on=objs[j])
         for j in spec['soft']:
             soft.add_dependency(objs[i], on=objs[j])
     return hard, soft
@@ -556,9 +647,17 @@ def run_seed(seed, gen_kwargs):
 # --------------------------------------------------------------------------
 # shrinking
 
+def _flat(new):
+    '''Shrunk scenarios are built node by node from the flat relation.'''
+    if new.get('graph_api') == 'nested':
+        new['graph_api'] = 'add'
+    new.pop('group', None)
+    return new
+
+
 def _drop_task(scn, k):
     import copy
-    new = copy.deepcopy(scn)
+    new = _flat(copy.deepcopy(scn))
     tasks = new['tasks']
     del tasks[k]
     for tsk in tasks:
@@ -596,7 +695,7 @@ def shrink_candidates(scn):
     for i, tsk in enumerate(scn['tasks']):
         for key in ('hard', 'soft'):
             for j in tsk[key]:
-                new = copy.deepcopy(scn)
+                new = _flat(copy.deepcopy(scn))
                 new['tasks'][i][key].remove(j)
                 yield new
         for field, plain in (('outcome', 'ok'), ('dur', 0), ('shared', False),
@@ -609,6 +708,10 @@ def shrink_candidates(scn):
     if scn['tick'] != 1e-4:
         new = copy.deepcopy(scn)
         new['tick'] = 1e-4
+        yield new
+    if scn.get('graph_api', 'add') != 'add':
+        new = _flat(copy.deepcopy(scn))
+        new['graph_api'] = 'add'
         yield new
 
 
@@ -633,4 +736,5 @@ def sched_facts(scn, res):
     if scn.get('cyclic_requested') and is_cyclic(scn):
         facts['scenarios-cyclic'] = 1
     facts['workers:%d' % scn['workers']] = 1
+    facts['graphs-built-via:%s' % scn.get('graph_api', 'add')] = 1
     return facts
